@@ -722,7 +722,9 @@ class VectorAwkward:
                 for name in fields:
                     if name not in (
                         "x",
+                        "px",
                         "y",
+                        "py",
                         "rho",
                         "pt",
                         "phi",
@@ -771,7 +773,9 @@ class VectorAwkward:
                 for name in ak.fields(self):
                     if name not in (
                         "x",
+                        "px",
                         "y",
+                        "py",
                         "rho",
                         "pt",
                         "phi",
@@ -837,7 +841,9 @@ class VectorAwkward:
                 for name in fields:
                     if name not in (
                         "x",
+                        "px",
                         "y",
+                        "py",
                         "rho",
                         "pt",
                         "phi",
@@ -900,7 +906,9 @@ class VectorAwkward:
                 for name in ak.fields(self):
                     if name not in (
                         "x",
+                        "px",
                         "y",
+                        "py",
                         "rho",
                         "pt",
                         "phi",
@@ -974,7 +982,9 @@ class VectorAwkward:
                 for name in ak.fields(self):
                     if name not in (
                         "x",
+                        "px",
                         "y",
+                        "py",
                         "rho",
                         "pt",
                         "phi",
